@@ -233,6 +233,25 @@ impl<K: Kind> SimArc<K> {
         unsafe { &*self.ptr }
     }
 
+    /// Stand-in target for a dereference that has just been reported as a violation (the
+    /// execution is being abandoned; nothing reads it).
+    fn dummy_slot() -> &'static Slot {
+        thread_local! {
+            static DUMMY: &'static Slot = Box::leak(Box::new(Slot {
+                strong: AtomicUsize::new(0),
+                weak: AtomicUsize::new(0),
+                state: Cell::new(ST_FREE),
+                uid: Cell::new(0),
+                kind: Cell::new(0),
+                cell: RaceCell::new(),
+                payload: std::cell::UnsafeCell::new(Payload::default()),
+                idx: usize::MAX,
+                panic_on_drop: Cell::new(false),
+            }));
+        }
+        DUMMY.with(|d| *d)
+    }
+
     pub fn addr(&self) -> usize {
         self.ptr as usize
     }
@@ -534,6 +553,23 @@ impl<K: Kind> SimWeak<K> {
             return false;
         }
         true
+    }
+}
+
+/// `Deref` to the allocation, like `Arc<T>: Deref<Target = T>` with `T` = the crate's `Base`
+/// (needed by `impl Access<T::Target> for Cache<A, T>`). Liveness- and race-checked like any
+/// other dereference.
+impl<K: Kind> std::ops::Deref for SimArc<K> {
+    type Target = Slot;
+    fn deref(&self) -> &Slot {
+        if !self.touch("deref") {
+            return Self::dummy_slot();
+        }
+        let s = self.slot();
+        if let Some(r) = s.cell.read("payload") {
+            rt::fail("race", r);
+        }
+        s
     }
 }
 
